@@ -1,12 +1,13 @@
 (* C16: config text means what it says.  ONLY statements closed by `exact`, each followed by Print Assumptions.
    tval = trees as written (repeated keys allowed); norm = later duplicates override, repeated objects merge;
    rfile es t = t is a rendering of es with quoted strings, paren lists, pairs, nested objects, ';' terminators and ARBITRARY
-   blanks, newlines, C and C++ comments at every token boundary.  (Bare words, newline terminators, comma lists without
-   parentheses and a missing terminator before '}' are accepted by the parser and exercised by the correspondence run against
-   norm(tree), but not covered by these theorems.) *)
+   blanks, newlines, C and C++ comments at every token boundary; rfile2 (ConfPrint2) = the whole documented syntax: quoted strings
+   with ANY escape spelling or bare words, parenthesised or un-parenthesised comma lists, pairs, nested objects, ';' or newline
+   terminators (a // comment before the newline included), no terminator before '}'. *)
 From Coq Require Import List NArith Bool Strings.Byte.
 Import ListNotations.
 Require Import Conf ConfRT ConfTotal ConfPrint.
+Require ConfPrint2.
 Local Open Scope N_scope.
 
 Theorem any_rendering_reads_back_as_its_tree : forall es t, rfile es t -> wf es -> es <> [] -> nonul t -> parse t = inr (norm es).
@@ -24,3 +25,17 @@ Theorem quoted_string_reads_back_exactly : forall n fuel s rest, nonul s ->
   pstring (S (n + fuel)) (repeat x20 n ++ quote s ++ rest) = Some (inr (s, rest)).
 Proof. exact pstring_blanks_quote. Qed.
 Print Assumptions quoted_string_reads_back_exactly.
+
+(* the WHOLE documented syntax: every text related to the tree es by rfile2 - strings quoted (any escape spelling: \\a \\n \\xHH \\c)
+   or bare, lists parenthesised or as a comma list on one line, host/service pairs, nested objects, each entry ended by ';', by
+   the end of its line (after an optional // comment) or, before '}', by nothing, arbitrary gaps with comments everywhere a gap
+   may stand - is read back as exactly norm es.  All side conditions (a bare word must be followed by a non-word byte, ...)
+   are inside the relation; the old renderings are included. *)
+Theorem any_documented_rendering_reads_back_as_its_tree : forall es t,
+  ConfPrint2.rfile2 es t -> wf es -> es <> [] -> nonul t -> parse t = inr (norm es).
+Proof. exact ConfPrint2.parse_renders2. Qed.
+Print Assumptions any_documented_rendering_reads_back_as_its_tree.
+
+Theorem documented_renderings_include_the_canonical_ones : forall es t, rfile es t -> ConfPrint2.rfile2 es t.
+Proof. exact ConfPrint2.rfile_rfile2. Qed.
+Print Assumptions documented_renderings_include_the_canonical_ones.
